@@ -10,9 +10,16 @@ class C04(SchedProp):
     preplaced_share = 0.1
     clauses = ['reported_at_most_once', 'exactly_one_of_started_waiting_failed_canceled',
                'idle_pilot_starts_a_fitting_waiter', 'fitting_task_never_failed',
-               'higher_priority_waiter_not_passed_over', 'bisect_skipped:higher_priority_waiter_not_passed_over']
+               'higher_priority_waiter_not_passed_over', 'bisect_skipped:higher_priority_waiter_not_passed_over',
+               'scheduler_loop_survives']
     rule = ('random scheduler histories as for C01 with cancel requests placed between any two steps of the loop; '
             'non-trivial = >= 2 tasks held simultaneously and >= 1 task waited')
+
+    def coq_row(self, case, obs):
+        # an exception that escapes _schedule_tasks ends the scheduler thread: every task still queued or
+        # waiting is lost.  Judged on the implementation alone.
+        row = super().coq_row(case, obs)
+        return '(%s ++ [%s])' % (row, 'false' if obs.get('died') else 'true')
 
 
 PROP = C04()
